@@ -218,6 +218,31 @@ pub fn gen_text(rng: &mut Rng, mode: &str) -> Vec<u32> {
             }
             t
         }
+        "deep-paras" => {
+            // a paragraph that ENDS with 100-150 initiators still open (isolates mostly), then short paragraphs whose
+            // level / FSI resolution depends on their own isolates being matched: nothing of the first paragraph's
+            // nesting — stack, overflow counts — may survive the paragraph separator (P1: rules apply per paragraph)
+            let mut t = vec![];
+            let iso_only = rng.chance(2, 3);
+            let kinds: Vec<u32> = if iso_only { vec![LRI_C, RLI_C, FSI_C] } else { vec![LRI_C, RLI_C, FSI_C, LRE_C, RLE_C, RLO_C] };
+            let depth = rng.range(100, 150);
+            for _ in 0..rng.range(0, 2) { let c = *rng.pick(&[L, R, EN]); t.push(pick_char(rng, c)); }
+            for _ in 0..depth {
+                t.push(*rng.pick(&kinds));
+                if rng.chance(1, 12) { let c = *rng.pick(&[L, R, EN, ON]); t.push(pick_char(rng, c)); }
+            }
+            for _ in 0..rng.range(0, 3) { t.push(*rng.pick(&[PDI_C, PDF_C])); }
+            for _ in 0..rng.range(1, 3) {
+                t.push(*rng.pick(&[0xAu32, 0xA, 0x2029, 0xD]));
+                match rng.below(4) {
+                    0 => { t.extend_from_slice(&[LRI_C, 0x31, PDI_C, 0x20]); let c = *rng.pick(&[R, AL, L]); t.push(pick_char(rng, c)); t.push(0x20); t.push(0x61); }
+                    1 => { t.extend_from_slice(&[FSI_C, *rng.pick(&[LRI_C, RLI_C]), PDI_C]); let c = *rng.pick(&[R, AL, L]); t.push(pick_char(rng, c)); t.extend_from_slice(&[PDI_C, 0x20, 0x63]); }
+                    2 => { for _ in 0..rng.range(1, 4) { t.push(*rng.pick(&[LRI_C, RLI_C, FSI_C])); let c = *rng.pick(&[R, L, EN]); t.push(pick_char(rng, c)); t.push(PDI_C); } let c = *rng.pick(&[R, AL, L, EN]); t.push(pick_char(rng, c)); }
+                    _ => { for _ in 0..rng.range(1, 6) { let c = *rng.pick(&[L, R, AL, EN, ON, WS, LRI, RLI, FSI, PDI, PDI]); t.push(pick_char(rng, c)); } }
+                }
+            }
+            t
+        }
         "max" => {
             // alternate RLE/LRE (each adds one level) so that depth ~125 is reached, then a little content
             let mut t = vec![];
@@ -418,6 +443,31 @@ pub fn gen_text(rng: &mut Rng, mode: &str) -> Vec<u32> {
             let n = rng.range(2, 16);
             (0..n).map(|_| { let c = pick_class(rng, &w); *rng.pick(pool(c)) }).collect()
         }
+        "stale" => {
+            // state that one iteration of a rule's loop must not hand to a much later one: an X9-removed character (or
+            // an ET run, an NI run) early in the sequence, in a position where its type matters — inside a neutral run
+            // between two strong characters, or alone inside a bracket pair — and, some characters later, the
+            // construct that consumes such pending state (ET EN for W5, a separator for W4/W6, a bracket pair for N0)
+            let mut t = vec![];
+            let s1 = *rng.pick(&[R, AL, L]);
+            let s2 = *rng.pick(&[R, L, L]);
+            t.push(pick_char(rng, s1));
+            let bracket = rng.chance(1, 3);
+            let k = pick_bracket(rng);
+            if bracket { t.push(OPEN_BRACKETS[k]); } else { for _ in 0..rng.range(1, 2) { let c = *rng.pick(&[ON, WS, ON]); t.push(pick_char(rng, c)); } }
+            for _ in 0..rng.range(1, 2) { t.push(*rng.pick(&[0x200Bu32, 0xAD, 0x2060, 0x200C, PDF_C, 0xFEFF])); }
+            if bracket { t.push(CLOSE_BRACKETS[k]); } else { for _ in 0..rng.range(1, 2) { let c = *rng.pick(&[ON, WS, ON]); t.push(pick_char(rng, c)); } }
+            if rng.chance(3, 4) { t.push(0x20); }
+            t.push(pick_char(rng, s2));
+            for _ in 0..rng.range(0, 3) { let c = *rng.pick(&[WS, L, R, ON, EN, WS]); t.push(pick_char(rng, c)); }
+            match rng.below(4) {
+                0 | 1 => { for _ in 0..rng.range(1, 2) { t.push(pick_char(rng, ET)); } t.push(pick_char(rng, EN)); }
+                2 => { t.push(pick_char(rng, EN)); let sc = *rng.pick(&[ES, CS]); t.push(pick_char(rng, sc)); t.push(pick_char(rng, EN)); }
+                _ => { let k2 = pick_bracket(rng); t.push(OPEN_BRACKETS[k2]); let c = *rng.pick(&[L, R, EN]); t.push(pick_char(rng, c)); t.push(CLOSE_BRACKETS[k2]); }
+            }
+            for _ in 0..rng.range(0, 2) { let c = *rng.pick(&[WS, L, R, ON]); t.push(pick_char(rng, c)); }
+            t
+        }
         _ => gen_text(rng, "short"),
     }
 }
@@ -536,9 +586,17 @@ pub fn gen_ds_text(rng: &mut Rng, alphabet: &[u32]) -> Vec<u32> {
     let n = if rng.chance(1, 3) { rng.range(3, 9) } else { rng.range(1, 24) };
     let fmt = [LRE_C, RLE_C, PDF_C, LRO_C, RLO_C, LRI_C, RLI_C, FSI_C, PDI_C];
     let fmt_den = if alphabet.iter().all(|&c| c < 0x80) && rng.chance(2, 3) { 1000 } else { 6 };
-    (0..n)
+    let mut t: Vec<u32> = (0..n)
         .map(|_| if rng.chance(1, fmt_den) { *rng.pick(&fmt) } else { *rng.pick(alphabet) })
-        .collect()
+        .collect();
+    if rng.chance(1, 6) {
+        // code points a "previous character" memo or a sentinel is typically initialised with — whatever class the
+        // source gives them (its default, mostly) is the class they have, at the very start of the text too
+        let c = *rng.pick(&[0x0u32, 0x0, 0x20, 0xFFFD, 0x10FFFF, 0x41, 0xFFFF]);
+        let k = if rng.chance(2, 3) { 0 } else { rng.below(t.len() + 1) };
+        for _ in 0..rng.range(1, 3) { t.insert(k, c); }
+    }
+    t
 }
 
 fn char_starts(enc: Enc, text: &[u32]) -> Vec<usize> {
@@ -685,8 +743,8 @@ fn line_case(rng: &mut Rng, modes: &[(&'static str, usize)]) -> (String, Input) 
     (mode, inp)
 }
 
-const MODES_ALL: [(&str, usize); 17] =
-    [("anychar", 4), ("edges", 2), ("manyparas", 1), ("removed", 1), ("short", 12), ("long", 4), ("iso", 6), ("deep", 2), ("brk", 4), ("sep", 4), ("words", 6), ("weak", 6), ("para", 4), ("max", 2), ("n0", 8), ("deepiso", 1), ("siblings", 1)];
+const MODES_ALL: [(&str, usize); 19] =
+    [("anychar", 4), ("edges", 2), ("manyparas", 1), ("removed", 1), ("short", 12), ("long", 4), ("iso", 6), ("deep", 2), ("brk", 4), ("sep", 4), ("words", 6), ("weak", 6), ("para", 4), ("max", 2), ("deep-paras", 1), ("stale", 3), ("n0", 8), ("deepiso", 1), ("siblings", 1)];
 
 /// Exhaustive small scope (support for the thorough tier, never presented as proof): the `n`-th class
 /// sequence over `alphabet`, shortest first, crossed with the three base directions; representatives rotate.
@@ -812,7 +870,7 @@ pub fn gen_case(prop: &str, rng: &mut Rng, n: usize, thorough: bool) -> (String,
             if n == 1 {
                 return ("empty".into(), Input::Bidi { enc: Enc::U16, api: Api::B, dir: Dir::L1, text: vec![], ds: None });
             }
-            bidi_case(rng, &[("para", 10), ("iso", 8), ("short", 4), ("words", 2), ("sep", 2), ("deepiso", 1), ("deep", 1), ("manyparas", 1), ("anychar", 3)], true)
+            bidi_case(rng, &[("para", 10), ("iso", 8), ("short", 4), ("words", 2), ("sep", 2), ("deepiso", 1), ("deep", 1), ("deep-paras", 1), ("manyparas", 1), ("anychar", 3)], true)
         }
         "C05" | "C06" if n == 3 => ("stress".into(), Input::Stress { n: 3_000 }),     // 6,000 runs in one line, LTR and forced RTL
         "C03" | "C05" | "C06" if n < 3 => {
@@ -884,7 +942,7 @@ pub fn gen_case(prop: &str, rng: &mut Rng, n: usize, thorough: bool) -> (String,
         }
         "C11" => {
             if rng.chance(2, 3) {
-                bidi_case(rng, &[("deep", 4), ("brk", 4), ("max", 2)], false)
+                bidi_case(rng, &[("deep", 4), ("brk", 4), ("max", 2), ("deep-paras", 1)], false)
             } else {
                 line_case(rng, &[("deep", 3), ("max", 4), ("brk", 2)])
             }
@@ -1176,7 +1234,22 @@ pub fn gen_case(prop: &str, rng: &mut Rng, n: usize, thorough: bool) -> (String,
                 }
                 _ => {}
             }
-            (tag.into(), Input::Meta13 { dir: pick_dir(rng), prefix, init, c1: balance(&c1), c2: balance(&c2), suffix })
+            let (mut c1, mut c2) = (balance(&c1), balance(&c2));
+            let enc = if rng.chance(1, 3) { Enc::U16 } else { Enc::U8 };
+            if enc == Enc::U16 && rng.chance(2, 3) {
+                // ill-formed UTF-16 inside the contents: lone HIGH surrogates anywhere (the end — directly before the
+                // PDI — included), a lone low one only at the start; each is one neutral character (U+FFFD)
+                for c in [&mut c1, &mut c2] {
+                    if rng.chance(2, 3) {
+                        for _ in 0..rng.range(1, 2) {
+                            let k = if rng.chance(1, 2) { c.len() } else { rng.below(c.len() + 1) };
+                            c.insert(k, 0xD800 + rng.below(0x400) as u32);
+                        }
+                        if rng.chance(1, 4) { c.insert(0, 0xDC00 + rng.below(0x400) as u32); }
+                    }
+                }
+            }
+            (tag.into(), Input::Meta13 { enc, dir: pick_dir(rng), prefix, init, c1, c2, suffix })
         }
         "C14" => match n {
             0 => ("table".into(), Input::Cls),
@@ -1248,8 +1321,23 @@ pub fn gen_case(prop: &str, rng: &mut Rng, n: usize, thorough: bool) -> (String,
                 let n = rng.range(1, 10);
                 let t: Vec<u32> = (0..n).map(|_| { let c = *rng.pick(&[L, L, L, WS, ON, EN, S, ES, ET, CS, NSM, BN, B]); pick_char(rng, c) }).collect();
                 let enc = if rng.chance(1, 2) { Enc::U8 } else { Enc::U16 };
-                let text = if enc == Enc::U16 { to_units(rng, &t, false) } else { t };
+                let text = if enc == Enc::U16 { to_units(rng, &t, false) } else { t.clone() };
                 let dir = *rng.pick(&[Dir::L1, Dir::L1, Dir::Auto, Dir::L0]);
+                if rng.chance(1, 6) {
+                    // an EMPTY line — the property quantifies over the empty text, whose only line is 0..0 — on any
+                    // character boundary, the end of the text included; judged on `reorder_line` only (S:C17)
+                    let t2: Vec<u32> = if rng.chance(1, 4) { vec![] } else { t.clone() };
+                    let k = rng.below(t2.len() + 1);
+                    let (text, a) = if enc == Enc::U16 {
+                        (to_units(rng, &t2, false), to_units(rng, &t2[..k], false).len())
+                    } else {
+                        let a = t2[..k].iter().map(|c| char::from_u32(*c).map_or(1, |ch| ch.len_utf8())).sum();
+                        (t2, a)
+                    };
+                    let api = if rng.chance(1, 3) { Api::B } else { Api::P };
+                    let dir = if dir == Dir::L1 { Dir::Auto } else { dir };
+                    return ("emptyline".into(), Input::Line { enc, api, dir, text, ds: None, para: 0, a, b: a });
+                }
                 if let Some((para, a, b)) = pick_line(rng, enc, Api::P, dir, &text, &None) {
                     ("pure".into(), Input::Line { enc, api: Api::P, dir, text, ds: None, para, a, b })
                 } else {
@@ -1335,7 +1423,9 @@ pub fn gen_case(prop: &str, rng: &mut Rng, n: usize, thorough: bool) -> (String,
             if n == 0 {
                 return ("serde".into(), Input::Serde);
             }
-            let mode = pick_mode(rng, &MODES_ALL);
+            // containers differ in how they empty, drain and grow: texts built to expose state left over from an
+            // earlier iteration or paragraph get a share of their own
+            let mode = if rng.chance(1, 8) { *rng.pick(&["stale", "stale", "deep-paras", "manyparas"]) } else { pick_mode(rng, &MODES_ALL) };
             let t = gen_text(rng, mode);
             let enc = if rng.chance(2, 3) { Enc::U8 } else { Enc::U16 };
             let text = if enc == Enc::U16 { to_units(rng, &t, false) } else { t };
